@@ -34,7 +34,7 @@ type c07Case struct {
 func init() {
 	engine.Register(&engine.Check{
 		ID: "C07", Level: "exploration",
-		Rule:        "round trip: universe U in XY, XYZ, XYM, XYZM, Layout(5), Layout(7) + collections (mixed layouts, empty members, nesting <=3) + a float lattice in points: Marshal output read by an independent RFC 7946 reader (same type, nesting, numbers) and by Unmarshal / Encode+Decode (equal to the model with the format carve-outs COMPUTED from the model: layout from the first position, empty => XY, arity mismatch => error); Features: id {absent,'a','0','1e3'} (plus ~300 string ids: every ASCII character alone and embedded, 15 characters beyond ASCII up to U+10FFFF, JSON look-alikes) x bbox {absent,XY,XYZ} x properties {nil,{},nested} x geometry {nil, each kind}; FeatureCollections of 0..2 features x bbox. Totality: grammar-directed enumeration of documents (type x coordinates menu x geometries menu; Feature id x bbox x geometry x properties menus; FeatureCollection menus) plus every prefix and every single-byte deletion of valid documents, decoded as geometry, Feature and FeatureCollection: no panic; error or well-formed result. distinct_nontrivial = distinct documents / geometries with at least one position or one member Also: a lattice of ~1100 numeric Feature ids (+-2^k and neighbours to 2^70, powers of ten to 1e22, integral values between 2^63 and 1e19) and two-step histories in which the document returned by Feature.MarshalJSON is kept while a shorter, an equally long and a longer document are marshalled.",
+		Rule:        "round trip: universe U in XY, XYZ, XYM, XYZM, Layout(5), Layout(7) + collections (mixed layouts, empty members, nesting <=3) + a float lattice in points: Marshal output read by an independent RFC 7946 reader (same type, nesting, numbers) and by Unmarshal / Encode+Decode (equal to the model with the format carve-outs COMPUTED from the model: layout from the first position, empty => XY, arity mismatch => error); Features: id {absent,'a','0','1e3'} (plus ~300 string ids: every ASCII character alone and embedded, 15 characters beyond ASCII up to U+10FFFF, JSON look-alikes) x bbox {absent,XY,XYZ} x properties {nil,{},nested} x geometry {nil, each kind}; FeatureCollections of 0..2 features x bbox. Totality: grammar-directed enumeration of documents (type x coordinates menu x geometries menu; Feature id x bbox x geometry x properties menus; FeatureCollection menus) plus every prefix, every single-byte deletion and every single-byte substitution (12-byte structural menu) of valid documents, and every JSON value of nesting depth <=3 (+1 wrapping level) over arrays of 0..2 elements with leaves {1,null,\"a\"} (thorough: also 2.5 and {}) as the coordinates of every geometry type, decoded as geometry, Feature and FeatureCollection: no panic; error or well-formed result. distinct_nontrivial = distinct documents / geometries with at least one position or one member Also: a lattice of ~1100 numeric Feature ids (+-2^k and neighbours to 2^70, powers of ten to 1e22, integral values between 2^63 and 1e19) and two-step histories in which the document returned by Feature.MarshalJSON is kept while a shorter, an equally long and a longer document are marshalled.",
 		Run:         c07Run,
 		Replay:      func(c *engine.Ctx, kind string, raw json.RawMessage) { c07Exec(c, decodeCase[c07Case](raw)) },
 		Assumptions: []string{"finite ordinates; geojson.DefaultLayout at its default XY; encoding/json and ref.ParseGeoJSON trusted"},
@@ -709,7 +709,55 @@ func c07Run(c *engine.Ctx) {
 					c07Exec(c, c07Case{Mode: "doc", Doc: d[:n] + d[n+1:], Kind: k})
 				}
 			}
+			// every byte replaced by each byte of a structural menu (brackets, braces, quote, comma,
+			// colon, digit, minus, a letter of null, backslash, a non-UTF-8 byte)
+			if n < len(d) {
+				for _, b := range []byte("[]{}\",:0-n\\\x80") {
+					if d[n] != b {
+						for _, k := range []string{"geometry", "feature", "fc"} {
+							c07Exec(c, c07Case{Mode: "doc", Doc: d[:n] + string(b) + d[n+1:], Kind: k})
+						}
+					}
+				}
+			}
 		}
+	})
+	// every JSON value of nesting depth <= 3 built from arrays of 0..2 elements over the leaves
+	// {1, null, "a"} (thorough: also 2.5 and {}) as the coordinates of every geometry type (ragged, over-deep and under-deep
+	// arrays at every level): T0 = 3, T1 = 16, T2 = 276, T3 = 76456 values
+	leaves := []string{`1`, `null`, `"a"`}
+	depth := 3
+	if c.Thorough() {
+		leaves = append(leaves, `2.5`, `{}`)
+	}
+	level := append([]string{}, leaves...)
+	for dd := 1; dd <= depth; dd++ {
+		next := append([]string{}, leaves...)
+		next = append(next, `[]`)
+		for _, a := range level {
+			next = append(next, `[`+a+`]`)
+		}
+		for _, a := range level {
+			for _, b := range level {
+				next = append(next, `[`+a+`,`+b+`]`)
+			}
+		}
+		level = next
+	}
+	// one more level of single-element and pair wrapping keeps the deepest legal nesting (4, a
+	// MultiPolygon) reachable in the quick tier as well
+	var tree []string
+	tree = append(tree, level...)
+	for _, a := range level {
+		tree = append(tree, `[`+a+`]`)
+	}
+	c.Note("coordinate_trees", len(tree))
+	gtypes := []string{`"Point"`, `"LineString"`, `"Polygon"`, `"MultiPoint"`, `"MultiLineString"`, `"MultiPolygon"`}
+	c.Parallel(len(tree), func(i int) {
+		for _, t := range gtypes {
+			c07Exec(c, c07Case{Mode: "doc", Doc: `{"type":` + t + `,"coordinates":` + tree[i] + `}`, Kind: "geometry"})
+		}
+		c.Count("coordinate_tree_docs", int64(len(gtypes)))
 	})
 	for _, k := range []string{"roundtrips_ok", "format_limit_errors", "feature_roundtrips", "doc_errors", "doc_accepted"} {
 		if c.Get(k) == 0 {
